@@ -68,8 +68,8 @@ RULES = {
                     "multicomplex - offsets without a real component (the real part of every argument is exactly x)",
     'R-SUPPORT': 'every evaluation point differs from x in at most one coordinate (Gradient/Jacobian/Hessdiag) or two '
                  '(Hessian), linearly in the step of that coordinate with component modulus <= 2 steps',
-    'R-EVALSITES': 'in an abstract end-to-end run the user function is only reached from the difference quotients, '
-                   'and at x itself from _eval_first / Jacobian._derivative_nonzero_order / _derivative_zero_order',
+    'R-EVALSITES': 'in an abstract end-to-end run of the whole call (not only of the difference quotient) every evaluation of the user function is at x or at a point '
+                   'admissible for the method - nothing else in the pipeline evaluates f elsewhere (judged by the offsets, whoever the caller is)',
     'R-UNTOUCHED': 'in every evaluation of a multivariate f the coordinates that are not being perturbed are the original x[k] '
                    'themselves (selection provenance in the data-abstract domain: copied, never recomputed): a work array that is '
                    'incremented and restored, (x + h) - h, is not x in floating point and leaves earlier coordinates off by an ulp - '
@@ -214,18 +214,30 @@ def evalsites(ctx):
             except AnalysisError as exc:
                 rep.undecided('R-EVALSITES', 'core.%s._derivative' % cls, exc, label)
                 continue
-            bad = []
+            # every point at which f was evaluated in the whole call, whoever called it: x itself, or a point that obeys the
+            # promise of the method (judged by the offsets, not by the names of the calling functions)
+            offs, seen = [], set()
             for site, off in sites:
-                at_x = all(p.is_zero() for p in off)
-                if site.startswith('finite_difference.'):
-                    continue          # any function of the difference-quotient module (methods, helpers, closures)
-                if site in ALLOWED_AT_X and at_x:
-                    continue
-                bad.append((site, tuple(repr(p) for p in off)))
-            rep.check(not bad, 'R-EVALSITES', 'core.%s._derivative' % cls, core_mod.relpath,
-                      {'calls': len(sites), 'sites': sorted({s for s, _ in sites}), 'offending': bad[:4]},
-                      'f is called only inside difference quotients, or at x itself from ' + ', '.join(ALLOWED_AT_X),
-                      label, key='evalsite %s' % (bad[0][0] if bad else ''))
+                if off not in seen:
+                    seen.add(off)
+                    offs.append(off)
+            infos = [(o, classify_offset(tuple(p for p in o if isinstance(p, Poly)))) for o in offs]
+            moved = [(o, inf) for o, inf in infos if inf['nz']]
+            if method == 'forward':
+                bad = [o for o, inf in moved if inf['signs'] - {1} or inf['has_imag'] or inf['has_j']]
+            elif method == 'backward':
+                bad = [o for o, inf in moved if inf['signs'] - {-1} or inf['has_imag'] or inf['has_j']]
+            elif method in ('central', 'central2'):
+                keys = set(offs)
+                bad = [o for o, inf in moved if inf['has_imag'] or inf['has_j'] or neg_offset(o) not in keys]
+            elif method == 'multicomplex' or (method == 'complex' and (cls in ('Jacobian', 'Gradient') or (cls == 'Derivative' and n == 1))):
+                bad = [o for o, inf in moved if inf['has_real']]
+            else:
+                bad = []
+            rep.check(bool(sites) and not bad, 'R-EVALSITES', 'core.%s._derivative' % cls, core_mod.relpath,
+                      {'calls': len(sites), 'distinct_points': len(offs), 'sites': sorted({s_ for s_, _ in sites}),
+                       'inadmissible': [tuple(repr(p) for p in o) for o in bad][:4]},
+                      'every evaluation of the whole call is at x or at a point admissible for the method', label, key='evalsite')
 
 
 def untouched(ctx):
